@@ -24,7 +24,7 @@ func runOrder() core.Outcome {
 //   order = `=` (the default table) | `.` (empty) | name,name,…
 //   items = `.` | item;item;…      item = dir:<r|n>:<nsets>:<paths>
 //   paths = `.` (no path matcher) | hex,hex,…  (`-` = empty string)
-// answer: `ok <i,j,…>` original indices in sorted order (`ok .` when empty) | `over20`
+// answer: `ok <i,j,…>` original indices in sorted order (`ok .` when empty)
 
 type sortItem struct {
 	dir   string
@@ -88,7 +88,7 @@ func itemsField(items []sortItem) string {
 	var parts []string
 	for _, it := range items {
 		ps := "."
-		if it.paths != nil {
+		if len(it.paths) > 0 {
 			var hs []string
 			for _, p := range it.paths {
 				hs = append(hs, core.Hex(p))
@@ -145,13 +145,10 @@ func runSort(line, ordF, itemsF string) core.Outcome {
 	}
 	o := core.Outcome{}
 	res := implSort(custom, order, items)
+	o.Impl = "ok " + idxField(res)
 	if len(items) > 20 {
-		// above sort.SliceStable's insertion-sort block size the model has no answer;
-		// the oracle below still applies
-		o.Impl = "over20"
+		// above sort.SliceStable's insertion-sort block size (SymMerge passes)
 		o.Tags = append(o.Tags, "sort:over20")
-	} else {
-		o.Impl = "ok " + idxField(res)
 	}
 	// ---- tags
 	kinds := map[string]int{}
@@ -229,7 +226,11 @@ func runSort(line, ordF, itemsF string) core.Outcome {
 			res2[k] = p[res2[k]] // back to original indices
 		}
 		if idxField(res2) != idxField(res) {
-			o.Failures = append(o.Failures, core.Failure{Case: line, Class: "sort-cross-kind-order-dependent",
+			cls := "sort-cross-kind-order-dependent"
+			if len(items) > 20 {
+				cls += ":over-20-routes"
+			}
+			o.Failures = append(o.Failures, core.Failure{Case: line, Class: cls,
 				What: fmt.Sprintf("input order %s sorts to %s but the cross-kind reordering %s sorts to %s", idxField(iota(len(items))), idxField(res), idxField(p), idxField(res2))})
 			return o
 		}
